@@ -313,6 +313,18 @@ impl TilesetsById<RawPixels> {
                 .unwrap()
                 .validate(palette.clone(), pixel_format, false)?;
 
+            // The decoded pixel data must cover all declared tiles.
+            let expected_pixel_count =
+                tileset.tile_count as usize * tileset.tile_size.pixels_per_tile() as usize;
+            if pixels.len() < expected_pixel_count {
+                return Err(AsepriteParseError::InvalidInput(format!(
+                    "Tileset {} declares {} pixels but contains only {}",
+                    tileset.id,
+                    expected_pixel_count,
+                    pixels.len()
+                )));
+            }
+
             result.insert(
                 id,
                 Tileset {
